@@ -7,7 +7,7 @@ from props import stack_common as sc
 def run(replay=None):
     chk = core.Check('C06', 'proof')
     chk.cov['rule'] = ('for every stack of the catalogue (every serialisable layer in several positions + seeded random stacks from the grammar, depth <= 5) '
-                       'and several random fields each (extents <= 4 per axis, all IEEE special classes among the stored bit patterns and configuration values): '
+                       'and several random fields each (extents 0..3 per axis (empty fields included), all IEEE special classes among the stored bit patterns and configuration values): '
                        'construct, dump, load the bytes into a second field of the same type, read back configuration and storage, dump again. '
                        'Oracle on the implementation alone: the second dump equals the first byte for byte, configuration and storage bit patterns of the loaded field equal the original. '
                        'Correspondence: the bytes equal the model writer\'s bytes, and the model reader accepts them with the same contents. '
@@ -24,7 +24,7 @@ def run(replay=None):
         if n in runner.failed:
             continue
         for j in range(per):
-            toks = sc.rand_field(chk.rng, n, max_extent=3 if j else 1)
+            toks = sc.rand_field(chk.rng, n, max_extent=3 if j else 1, min_extent=0 if j == per - 1 else 1)
             fields.append((n, toks))
     if replay:
         import json
